@@ -234,6 +234,15 @@ def gen_plan(seed, tier, index):
         m['max_seq_len'] = 1120 // 4 + 2 if r.random() < 0.5 else 400
         m['eos_q'] = r.choice([0.6, 0.8, 0.9])
         m['dec_layers'] = min(m['dec_layers'], 2)
+    if r.random() < 0.03:
+        # through BaseEngineLineOCR.process_lines of the transformer engine: equal-width lines wider than
+        # max_line_width are split into overlapping parts, decoded, and stitched together again
+        batches = [{'n': r.randint(2, 4), 'w': r.choice([100, 160, 200]), 'seed': r.randrange(1 << 30), 'cached': True,
+                    'via': 'process_lines', 'mlw': r.choice([48, 64])} for _ in range(r.randint(1, 2))]
+        m['max_seq_len'] = 1120 // 4 + 2 if r.random() < 0.5 else 400
+        m['eos_q'] = r.choice([0.5, 0.6])
+        m['dec_layers'] = min(m['dec_layers'], 2)
+        m.pop('attn_gain', None)
     return {'world': 'tr', 'model': m, 'poison': r.choice(['nan', 'nan', 'garbage']), 'batches': batches}
 
 
@@ -262,6 +271,8 @@ def sut(where, fn, *a, **kw):
 
 def _calibrate(pristine, m, plan):
     wcal = 256 if plan['batches'][0].get('via') else min(64, max(bb['w'] for bb in plan['batches']))
+    if plan['batches'][0].get('via') == 'process_lines':
+        wcal = 64
     return calibrate_eos(pristine, m, wcal)
 
 
@@ -454,6 +465,55 @@ def forced_prefix_batch(res, ctx, k, b, x, proj, log):
     return True
 
 
+def _as_line_engine(eng, m, mlw):
+    """The attributes BaseEngineLineOCR.__init__ would have set from ocr.json (the engine object itself was
+    created without loading weights)."""
+    eng.line_px_height = m['H']
+    eng.max_line_width = mlw
+    eng.line_padding_px = 32
+    eng.batch_size = 4
+    eng.max_input_horizontal_pixels = 480 * 4
+    eng.model_type = 'transformer'
+    eng.net_subsampling = 4
+    return eng
+
+
+def process_lines_batch(res, ctx, k, b, x, proj, log):
+    """A page of equal-width lines through process_lines (splitting, run_ocr, stitching): every line must get
+    what it gets when it is the only line of the page, on a fresh model."""
+    torch = _torch()
+    m, pristine, live = ctx['m'], ctx['pristine'], ctx['live']
+    lines = [np.ascontiguousarray(np.transpose(x[i], (1, 2, 0))) for i in range(x.shape[0])]
+    _as_line_engine(live, m, b['mlw'])
+    proj.calls, proj.abort_at, proj.cap = 0, None, None
+    try:
+        tr, lg, _ = sut('process_lines', live.process_lines, lines, sparse_logits=False)
+        res.probe('process_lines_pages')
+        for i, line in enumerate(lines):
+            ref = _as_line_engine(make_engine(copy.deepcopy(pristine), m['nsym']), m, b['mlw'])
+            ref.net.dec_out_proj.cap = None
+            tr1, lg1, _ = sut('process_lines(line alone)', ref.process_lines, [line], sparse_logits=False)
+            a, c = np.asarray(lg[i]), np.asarray(lg1[0])
+            tol = tol_for(torch.from_numpy(c)) if c.size else TOL
+            same_shape = a.shape == c.shape
+            d = float(np.abs(a - c).max()) if same_shape and a.size else (0.0 if same_shape else float('inf'))
+            if not np.isfinite(a).all():
+                _viol(res, 'cache', 'non-finite-scores|%s' % ctx['plan']['poison'], 'process_lines scores contain NaN/inf', k)
+                return False
+            margin = min_margin(torch.from_numpy(c)) if c.ndim == 2 and c.shape[0] and c.shape[1] >= 2 else 1.0
+            if (d > tol or tr[i] != tr1[0]) and margin >= TIE:
+                _viol(res, 'batch-independence', 'process_lines-line-alone', 'line %d of a page of equal-width split lines gives %r (score diff %.3g), alone %r' % (i, tr[i], d, tr1[0]), k)
+                return False
+            if '\u200b' in tr[i]:
+                _viol(res, 'output', 'boundary-or-ignore-in-output', 'process_lines text contains the boundary character', k)
+                return False
+        log.add('live', 'process_lines', [k, b['n'], b['w'], b['mlw'], kernel.sha(tr)])
+    except SutRaised as e:
+        _viol(res, 'termination', 'decode-raised|%s|%s' % (e.where, type(e.exc).__name__), str(e)[:300], k)
+        return False
+    return True
+
+
 def run_ocr_batch(res, ctx, k, b, x, proj, log):
     """One batch through TransformerEngineLineOCR.run_ocr (uint8 NHWC in, centre padding to 1088 px):
     must equal transcribe_batch on a fresh model given the explicitly padded input."""
@@ -570,6 +630,12 @@ def execute(plan):
                     except SutRaised as e:
                         _viol(res, 'termination', 'decode-raised|%s|%s' % (e.where, type(e.exc).__name__), str(e)[:300], k)
                         ok = False
+                    prev = b
+                    if not ok:
+                        break
+                    continue
+                if b.get('via') == 'process_lines':
+                    ok = process_lines_batch(res, ctx, k, b, x, proj, log)
                     prev = b
                     if not ok:
                         break
